@@ -92,6 +92,10 @@ type res struct {
 	Status int    `json:"status"` // != 0: status-only response
 	Kind   string `json:"kind"`
 	Props  []pv   `json:"props"`
+	// Own: the response is about the requested collection itself (Name ""),
+	// NoSlash: its href is spelled without the trailing slash of the request.
+	Own     bool `json:"own,omitempty"`
+	NoSlash bool `json:"no_slash,omitempty"`
 }
 
 type docSpec struct {
@@ -214,6 +218,9 @@ func applyProp(id, kind string, v propVal, e *Entry, str *string) {
 func (d *docSpec) resPath(ri int) string {
 	r := &d.Res[ri]
 	if r.Name == "" {
+		if r.NoSlash {
+			return strings.TrimSuffix(d.M.Base, "/")
+		}
 		return d.M.Base
 	}
 	if strings.HasSuffix(d.M.Base, "/") {
@@ -331,6 +338,9 @@ func (d *docSpec) expect() (exp Expect, class, dkey string) {
 		if ri > 0 {
 			sbKey.WriteString(";")
 		}
+		if r.Own {
+			sbKey.WriteString(fmt.Sprintf("own(noslash=%v,abs=%v)", r.NoSlash, r.Abs))
+		}
 		if r.Status != 0 {
 			sbKey.WriteString("s" + codeClass(r.Status))
 			o.RespBad = failing(r.Status)
@@ -341,6 +351,12 @@ func (d *docSpec) expect() (exp Expect, class, dkey string) {
 				if m.Kind == "sync" && o.RespBad {
 					exp.SyncNotDeleted = append(exp.SyncNotDeleted, o.E.Path)
 				}
+			}
+			if o.RespBad && m.Kind == "sync" && r.Own && r.Status != 404 {
+				// A failing status on the request-URI speaks about the report as
+				// a whole (RFC 6578 section 3.6: 507 = truncated result): a normal
+				// result without error would present it as complete.
+				mustErr = "request-URI response with " + failClass(r.Status) + " status"
 			}
 			if o.RespBad && m.Kind == "ms1" {
 				mustErr = "response with " + failClass(r.Status) + " status"
